@@ -402,12 +402,13 @@ def run(ctx, rep):
                 cut.add(e)
         reach = b.reachable(0, avoid_edges=cut)
         bad = sorted(data_sends & reach)
-        # an empty OK may also follow the *failure* edge of a gated operation (nothing performed, nothing disclosed)
+        # an empty OK answered on the *failure* edge of the gated operation (request refused, nothing disclosed, but not told so) is reported separately
         reach_e = b.reachable(0, avoid_blocks={g.bb for g in gates})
         bad_e = sorted(empty_sends & reach_e)
         lenient = sorted((empty_sends & reach) - set(bad_e))
         if lenient:
-            rep.note('R09.g: %s answers an empty OK on the failure edge of its gated operation (an unauthenticated or unauthorised request is not told so)' % short(d))
+            rep.ob('R09.g', d, 'empty-ok-on-refusal', False, b.where(lenient[0]),
+                   'the handler answers an empty OK on the failure edge of its gated operation: an unauthenticated or unauthorised request is not refused with an error')
         bad = bad + bad_e
         rep.ob('R09.g', d, 'gated-response', not bad, b.where(bad[0]) if bad else None,
                'data responses only after success of %s; empty responses only after it was consulted' % sorted({short(g.name) for g in gates}) if not bad else
